@@ -114,7 +114,17 @@ def run(res, f, tier):
     m_err = re.match(r"std::result::Result<.*, (.+)>$", un_ret)
     un_err = m_err.group(1) if m_err else "?"
     pu = []
-    for q in evalsum.reachable_local(f, [un[0]]):
+    reach_un = list(evalsum.reachable_local(f, [un[0]]))
+    try:
+        # also what std calls back (the `next` of an iterator struct drained by `try_fold`)
+        reach_un += [q_ for q_ in evalsum.reachable_mono(f, [un[0]]) if q_ not in reach_un and q_.startswith(("parse::", "<parse::"))]
+        for q_ in list(reach_un):
+            reach_un += [x_ for x_ in evalsum.reachable_local(f, [q_]) if x_ not in reach_un]
+    except Exception:
+        pass
+    for q in reach_un:
+        if q not in f.bodies:
+            continue
         qb = f.bodies[q]
         if q == un[0] or qb.get("parent") or qb["kind"] not in ("Fn", "AssocFn"):
             continue
@@ -197,6 +207,24 @@ def run(res, f, tier):
         has_radix16 = any("u32::from_str_radix" in r and ", 16)" in r for r in rets) or any("from_str_radix" in c[0] and ", 16)" in c[0] for cs, _, _, _ in outs for c in cs)
         ob(has_radix16 and any("char::from_u32" in r or "char::from_u32" in str(cs) for cs, r, _, _ in outs) and any(r.startswith("Err(BraceNotFound") for r in rets),
            "C08|unicode-escape", "\\u{hex} must require braces, read hexadecimal digits and map through char::from_u32 (None -> error): %s" % rets[:4])
+        # the digits are everything up to the closing brace: no adaptor may bound, skip or filter what is read, and a
+        # `take_while` must stop at `}` and nowhere else
+        used = set()
+        for _, _, s2_, _ in outs:
+            for e_ in s2_.events:
+                if e_[0] == "call":
+                    used.add(short_callee(e_[1]))
+        text2 = " ".join(r for _, r, _, _ in outs) + " " + " ".join(a_ for cs, _, _, _ in outs for a_, _ in cs)
+        for m_ in re.finditer(r"(\w+)::(take|skip|step_by|skip_while|filter|filter_map|nth|rev|chain|zip|last|scan|fuse|map_while)\(", text2):
+            used.add("%s::%s" % (m_.group(1), m_.group(2)))
+        odd = sorted(u for u in used if u.split("::")[-1] in ("take", "skip", "step_by", "skip_while", "filter", "filter_map", "nth", "rev", "chain", "zip", "last", "scan", "fuse", "map_while"))
+        ob(not odd, "C08|unicode-escape|digits", "the hex digits of \\u{..} must be every character up to the closing brace; the routine also applies %s to the characters" % odd)
+        for m_ in re.finditer(r"take_while\([^()]*(?:\([^()]*\))?[^()]*, closure\(([^(),]+)\)\)", text2):
+            import c17 as _c17
+            cs_ = _c17.closure_summary(f, m_.group(1)) if m_.group(1) in f.bodies else None
+            good_ = cs_ is not None and len(cs_) == 1 and not cs_[0][0] and re.fullmatch(r"(?:Ne\(125, (?:e|e1|e\.1)\)|Ne\((?:e|e1|e\.1), 125\)|Not\(Eq\(125, (?:e|e1|e\.1)\)\))", cs_[0][1]) is not None
+            ob(good_, "C08|unicode-escape|until-brace", "the digits of \\u{..} must be read until `}` exactly: the take_while predicate is %s" % (cs_,))
+            break
     else:
         ob(False, "C08|unicode-escape", "the unicode-escape routine (a function reached from unescape that returns a char or its own error) was not found: %s" % pu)
     # ---- 3. priority / longest match for every overlapping pair
